@@ -10,7 +10,7 @@ def conv(a):
     if a[0] == 'tmpl':
         return ('tmpl', a[1], [p if isinstance(p, int) else p.encode('latin1') for p in a[2]])
     return tuple(a)
-job = Job(h, [conv(a) for a in args], timeout=float(sys.argv[3]) if len(sys.argv) > 3 else None, opts={'solver_timeout_ms': 10000})
+job = Job(h, [conv(a) for a in args], timeout=float(sys.argv[3]) if len(sys.argv) > 3 else None, opts={'solver_timeout_ms': 10000, 'float_contract': True})
 c = Check('DBG', 'quick')
 c.add(job)
 t = time.time()
